@@ -28,13 +28,13 @@ for t in bad:
     pkg,name=t.split('::')
     ok=False
     for i in range(3):
-        r=subprocess.run(['go','test','-mod=mod','-vet=off','-count=1','-timeout','5m','-run','^'+name+'$',pkg],cwd=sys.argv[2],capture_output=True,text=True)
+        r=subprocess.run(['go','test','-mod=mod','-vet=off','-count=1','-timeout','2m','-run','^'+name+'$',pkg],cwd=sys.argv[2],capture_output=True,text=True)
         if r.returncode==0 and 'no tests to run' not in r.stdout:
             ok=True; break
         if 'address already in use' in r.stdout+r.stderr:
             # another process on this machine holds the fixed port the test binds: environmental, so the
             # test is given a private network namespace (loopback only) where the port is free
-            r=subprocess.run(['unshare','-n','sh','-c','ip link set lo up && exec go test -mod=mod -vet=off -count=1 -timeout 5m -run ^'+name+'$ '+pkg],cwd=sys.argv[2],capture_output=True,text=True)
+            r=subprocess.run(['unshare','-n','sh','-c','ip link set lo up && exec go test -mod=mod -vet=off -count=1 -timeout 2m -run ^'+name+'$ '+pkg],cwd=sys.argv[2],capture_output=True,text=True)
             if r.returncode==0 and 'no tests to run' not in r.stdout:
                 ok=True; break
     print(f"  retried {t}: {'pass' if ok else 'FAIL'} (full run said {res.get(t)})")
